@@ -58,7 +58,7 @@ pub fn class_reps(ev: Ev) -> &'static Vec<String> {
     CELLS[ev.idx()].get_or_init(|| {
         let mut v: Vec<&str> = vec!["+", "-", "*", "/", "^", "(", ")", ",", "@", "2", "²", "abs(", "pow(", "x"];
         match ev {
-            Ev::I64 => v.extend(["%", "!", "&", "<<", "min(", "gcd(", "9223372036854775807", "64"]),
+            Ev::I64 => v.extend(["%", "!", "&", "<<", "min(", "gcd(", "9223372036854775807", "64", "<", ">"]),
             Ev::Cpx => v.extend(["°", "rad", "pi", "e", "i", "2i", "0.5", "sin("]),
             Ev::Dec => v.extend(["%", "!", "pi", "e", "⌊", "⌋", "min(", "avg(", "0.5", "w(", "ilog(", "28"]),
             _ => v.extend(["%", "!", "°", "rad", "pi", "e", "⌊", "⌋", "⌈", "⌉", "min(", "avg(", "0.5", "w(", "ilog(", "171"]),
